@@ -45,6 +45,16 @@ VISUAL_MENU['color'] += ['Green', 'green ']
 VISUAL_MENU['fontsize'] += [10.000001]
 VISUAL_MENU['dashes'] += [{'t': 'list', 'v': [3, 4]},
                           {'t': 'list', 'v': [4, 3]}]
+# mutable values nested inside immutable ones (matplotlib's (offset, on-off
+# list) dash form; a (values, unit) pair): a copy must not share the inner list
+VISUAL_MENU['linestyle'] += [{'t': 'tuple', 'v': [0, {'t': 'list',
+                                                     'v': [4, 2]}]}]
+VISUAL_MENU['dashes'] += [{'t': 'tuple', 'v': [0, {'t': 'list',
+                                                  'v': [3, 1]}]}]
+META_MENU['corr'] += [{'t': 'tuple', 'v': [{'t': 'list', 'v': ['I', 'Q']},
+                                           'lin']}]
+META_MENU['comment'] += [{'t': 'dict', 'v': [['k', {'t': 'list',
+                                                    'v': [1, 2]}]]}]
 META_VALID = ['background', 'comment', 'component', 'composite', 'corr',
               'delete', 'edit', 'fixed', 'frame', 'highlite', 'include',
               'label', 'line', 'move', 'name', 'range', 'restfreq',
